@@ -37,8 +37,8 @@ def run(prog, world, sem, rep):
     if ok:
         (v, bb, kind, cell, key, val, e) = eff[0]
         wv = written_value_in(sem, vs, v, kind, cell, val, False)
-        c = classify(sem, STATE, sem.field_of(wv, POOLF["stsei"]), (POOLF["stsei"],))
-        cb = classify(sem, STATE, sem.field_of(wv, POOLF["bsei"]), (POOLF["bsei"],))
+        c = classify(sem, STATE, sem.field_of(wv, POOLF["stsei"], False), (POOLF["stsei"],))
+        cb = classify(sem, STATE, sem.field_of(wv, POOLF["bsei"], False), (POOLF["bsei"],))
         ok = c[0] == "delta" and c[1] == 1 and roles.role(c[2]) == ("payment", "amount") and cb[0] == "preserved"
         det = "stSei pool %s, bSei pool %s" % (c[:2], cb[0])
         # every success exit passes the write: no Ok exit reachable when the write block is removed
